@@ -251,6 +251,13 @@ def r9_one_admission_table(ctx):
         reads_rooms = False
         for g in with_new_helpers(m, f):
             for n in walk_own(g.node):
+                # delegation to another admission function (checked in its
+                # own right) reads the same table
+                if isinstance(n, ast.Attribute) and U(n.value) == 'self' \
+                        and n.attr != fname and n.attr in (
+                            'is_connected', 'sid_from_eio_sid',
+                            'eio_sid_from_sid'):
+                    reads_rooms = True
                 if isinstance(n, ast.Attribute) and U(n.value) == 'self' \
                         and m.lookup(f.cls, n.attr) is None:
                     if n.attr == 'rooms':
